@@ -227,54 +227,47 @@ theorem runCM_leaveFn_nil (outer : CState) {s : CState} (h : s.tables = []) :
   simp only [runCM_bind, runCM_get, h]
   exact ⟨_, rfl⟩
 
+/-- two computations that start with the same action in the same state -/
+theorem equiOut_same_start {α β} {pre : Array UInt8} {m : CM α} {k k' : α → CM β} (e : CState)
+    (h : ∀ a s1, EquiOut pre (runCM (k a) s1) (runCM (k' a) s1)) :
+    EquiOut pre (runCM (m >>= k) e) (runCM (m >>= k') e) := by
+  rw [runCM_bind, runCM_bind]
+  cases hr : runCM m e with
+  | mk r s1 =>
+    cases r with
+    | error e' => exact ⟨rfl, rfl, rfl⟩
+    | ok a => exact h a s1
+
 /-- a function literal: its body is compiled from a fresh stream in both runs, so ANY body will do -/
 theorem equi_withFn (pos : Pos) (variadic : Bool) (params : List String) (body : CM Unit) :
     Equi (withFn pos variadic params body) := by
-  have hrest : Equi (do
-      let outer ← enterFn variadic
-      body
-      let fn ← finishFn
-      let ft ← leaveFn outer
-      Pure.pure (fn, ft) : CM (CFn × Table)) := by
-    intro pre M s2
-    rw [runCM_bind, runCM_bind, runCM_enterFn, runCM_enterFn]
-    simp only
-    -- both runs continue from the same state
-    generalize ({ tables := s2.tables, constants := s2.constants, variadic := variadic, builtins := s2.builtins } : CState) = e2
-    rw [runCM_bind, runCM_bind]
-    cases hb : runCM body e2 with
-    | mk rb s3 =>
-      cases rb with
-      | error e => exact ⟨rfl, rfl, rfl⟩
-      | ok _ =>
-        simp only
-        rw [runCM_bind, runCM_bind]
-        cases hf : runCM finishFn s3 with
-        | mk rf s4 =>
-          cases rf with
-          | error e => exact ⟨rfl, rfl, rfl⟩
-          | ok fn =>
-            simp only
-            rw [runCM_bind, runCM_bind]
-            cases ht : s4.tables with
-            | nil =>
-              obtain ⟨e1, h1⟩ := runCM_leaveFn_nil s2 ht
-              obtain ⟨e2', h2⟩ := runCM_leaveFn_nil (withPre pre M s2) ht
-              rw [h1, h2]
-              have : e2' = e1 := by
-                have a1 := h1; have a2 := h2
-                unfold leaveFn popTable headTable at a1 a2
-                simp only [runCM_bind, runCM_get, ht] at a1 a2
-                have := a1.symm.trans (by rfl : _ = _)
-                injection a1 with a1; injection a2 with a2
-                injection a1 with a1; injection a2 with a2
-                exact a2.symm.trans a1
-              exact ⟨this, rfl, rfl⟩
-            | cons t r =>
-              rw [runCM_leaveFn s2 ht, runCM_leaveFn (withPre pre M s2) ht]
-              simp only [runCM_pure]
-              exact ⟨rfl, M, rfl⟩
+  intro pre M s2
   unfold withFn
-  exact Equi.bind (equi_forkTable false) fun _ => Equi.bind (equi_setParams pos params) fun _ => hrest
+  rw [runCM_bind, runCM_bind, runCM_enterFn, runCM_enterFn]
+  simp only
+  -- both runs continue from the same state; only the saved outer state differs
+  generalize ({ tables := s2.tables, constants := s2.constants, variadic := variadic, builtins := s2.builtins } : CState) = e2
+  apply equiOut_same_start; intro _ s3
+  apply equiOut_same_start; intro _ s3'
+  apply equiOut_same_start; intro _ s3''
+  apply equiOut_same_start; intro fn s4
+  rw [runCM_bind, runCM_bind]
+  cases ht : s4.tables with
+  | nil =>
+    obtain ⟨e1, h1⟩ := runCM_leaveFn_nil s2 ht
+    obtain ⟨e2', h2⟩ := runCM_leaveFn_nil (withPre pre M s2) ht
+    rw [h1, h2]
+    have : e2' = e1 := by
+      have a1 := h1; have a2 := h2
+      unfold leaveFn popTable headTable at a1 a2
+      simp only [runCM_bind, runCM_get, ht] at a1 a2
+      injection a1 with a1; injection a2 with a2
+      injection a1 with a1; injection a2 with a2
+      exact a2.symm.trans a1
+    exact ⟨this, rfl, rfl⟩
+  | cons t r =>
+    rw [runCM_leaveFn s2 ht, runCM_leaveFn (withPre pre M s2) ht]
+    simp only [runCM_pure]
+    exact ⟨rfl, M, rfl⟩
 
 end UgoVerif.Compile
